@@ -20,6 +20,37 @@ LABEL = {
 }
 
 
+# textual order of the flush / save / remove call sites in the anchored functions: (file, fn, [markers in the
+# order the discipline wants]).  Recorded in the evidence; a reordering that matters shows up in the runs.
+ORDER_FACTS = [
+    ("crates/core/src/archiver.rs", "archive", ["indexer.write().unwrap().finalize()", "save_file(&self.snap)"]),
+    ("crates/core/src/commands/copy.rs", "copy", ["indexer.write().unwrap().finalize()", "save_list("]),
+    ("crates/core/src/commands/merge.rs", "merge_snapshots", ["merge_trees(", "save_file(&snap)"]),
+    ("crates/core/src/commands/merge.rs", "merge_trees", ["packer.finalize()", "indexer.write().unwrap().finalize()"]),
+    ("crates/core/src/commands/rewrite.rs", "rewrite_snapshots_and_trees", ["rewriter.finalize()", "process_snapshots("]),
+    ("crates/core/src/commands/rewrite.rs", "process_snapshots", ["save_snapshots(", "delete_snapshots("]),
+    ("crates/core/src/commands/repair/snapshots.rs", "repair_snapshots", ["modifier.finalize()", "be.save_file(", "be.delete_list("]),
+    ("crates/core/src/commands/repair/index.rs", "repair_index", ["be.save_file(&new_index)", "indexer.write().unwrap().finalize()", "be.remove(FileType::Index"]),
+    ("crates/core/src/blob/tree/modify.rs", "finalize", ["self.packer.finalize()", "self.indexer.write().unwrap().finalize()"]),
+    ("crates/core/src/commands/prune.rs", "prune_repository", ["data_repacker.finalize()", "indexer.write().unwrap().finalize()", "!early_delete_index", "data_packs_remove.iter()", "tree_packs_remove.iter()"]),
+]
+
+
+def source_order_facts():
+    sys.path.insert(0, os.path.join(ROOT, "lib"))
+    import rustscan
+    out = []
+    for rel, fn, marks in ORDER_FACTS:
+        try:
+            body = rustscan.fn_body(rustscan.strip_comments(rustscan.read(vlib.REPO, rel)), fn)
+            pos = [body.find(m) for m in marks]
+            ok = all(p >= 0 for p in pos) and pos == sorted(pos)
+            out.append({"file": rel, "fn": fn, "markers": marks, "positions": pos, "in_intended_order": ok})
+        except Exception as e:
+            out.append({"file": rel, "fn": fn, "markers": marks, "error": str(e)[:200], "in_intended_order": False})
+    return out
+
+
 def prune_variants(thorough):
     if thorough:
         return [v for v in range(64) if v & 3 != 3]
@@ -28,8 +59,8 @@ def prune_variants(thorough):
 
 def gen_cases(ctx):
     rng, th = ctx.rng, ctx.thorough()
-    nseeds = 4 if th else 2
-    reps = 3 if th else 1
+    nseeds = 3 if th else 2
+    reps = 2 if th else 1
     cases = []
 
     def add(cmd, variant, crash=0, ns=None):
@@ -165,6 +196,16 @@ def run(ctx):
                     results += res1
                 else:
                     hangs.append((c, rc1, err1[-300:]))
+    # a panic while SETTING UP a scenario (e.g. rustic's `index still in use` 100 ms wait under load) is
+    # not a result about the command: rerun such a case alone, at most twice
+    retried = 0
+    for i, res in enumerate(results):
+        for _ in range(2):
+            if "panic" in str(results[i].get("setup_error", "")):
+                retried += 1
+                rc1, res1, err1 = run_harness(impl, [res["case"]], "r%d" % i, timeout=400)
+                if res1:
+                    results[i] = res1[0]
     viol = []          # (what, witness, signature)
     broken = []        # correspondence problems
     mlines, mref = [], []
@@ -269,11 +310,12 @@ def run(ctx):
                 stats["faulted_logs_outside_discipline_but_final_safe"] += 1
     for c, rc1, err1 in hangs:
         viol.append(("%s: the harness process did not finish the case (rc=%s)" % (c.split()[0], rc1), {"case": c, "stderr": err1}, "%s:hang" % c.split()[0]))
+    cov["source_order_facts"] = source_order_facts()
     cov.update({
         "evaluations": stats["states_evaluated"], "distinct_nontrivial": len(nontriv),
         "rule": "one evaluation = one storage state (after a prefix of a recorded fault-free log, after one injected failure, or after a crash re-run) opened with a fresh handle, every listed snapshot read completely and compared with its pre-command content; non-trivial = distinct (command, variant, op-kind sequence) of a fault-free log with at least two kinds of backend calls",
         "samples": samples, "distribution": {k: dict(v) for k, v in hist.items()}, "totals": dict(stats),
-        "cases": len(cases), "logs_fed_to_extracted_discipline_ok": len(mouts), "discipline_ok_true": disc_true, "discipline_ok_false": disc_false,
+        "cases": len(cases), "cases_rerun_after_setup_panic": retried, "logs_fed_to_extracted_discipline_ok": len(mouts), "discipline_ok_true": disc_true, "discipline_ok_false": disc_false,
         "traces_validated_against_impl": agree_n,
         "disagreements_checked": len(broken) + len(viol), "model_impl_mismatches": len(broken), "oracle_violations": len(viol),
     })
